@@ -170,3 +170,27 @@ Lemma ex_judged_ok : wf_seq true ex_judged = true /\ expr_wf ex_judged.
 Proof. split; [reflexivity|]. cbn. repeat split; discriminate. Qed.
 Lemma hypotheses_satisfiable_judged : (val_ok ex_val /\ ids_ok ex_val) /\ (wf_seq true ex_judged = true /\ expr_wf ex_judged).
 Proof. split; [exact ex_val_ok|exact ex_judged_ok]. Qed.
+
+(* host filters between two host VARIABLES: both masks count. `chost:@shost@/40 -chost:@shost@/48` have the same IPv4 mask
+   and different IPv6 masks; on an IPv6 stream whose addresses agree in the first 40 bits and differ in bit 40 both hold, so
+   cleanHostConditions must neither report a contradiction nor drop one of them (seeded change C03-r5a-n1 compared Mask4 only). *)
+Definition ex_m4 : list N := [255; 255; 255; 255]%N.
+Definition ex_m6 (n : nat) : list N := repeat 255%N n ++ repeat 0%N (16 - n).
+Definition ex_hv (n : nat) (inv : bool) : hostc := mkHost [mkSrc 0 false; mkSrc 0 true] [] ex_m4 (ex_m6 n) inv.
+Definition ex_v6 : valuation :=
+  mkVal (fun _ => mkStream (fun _ => 0) 0 0 0%N
+                    [32; 1; 13; 184; 170; 0; 0; 0; 0; 0; 0; 0; 0; 0; 0; 1]%N
+                    [32; 1; 13; 184; 170; 128; 0; 0; 0; 0; 0; 0; 0; 0; 0; 1]%N (fun _ => 1%N)) (fun _ _ => None) 0%N.
+Lemma host_variable_masks_witness :
+  val_ok ex_v6 /\ host_wf (ex_hv 5 false) /\ host_wf (ex_hv 6 true) /\
+  h_m4 (ex_hv 5 false) = h_m4 (ex_hv 6 true) /\ h_m6 (ex_hv 5 false) <> h_m6 (ex_hv 6 true) /\
+  eval_host ex_v6 (ex_hv 5 false) = true /\ eval_host ex_v6 (ex_hv 6 true) = true /\
+  clean_host [ex_hv 5 false; ex_hv 6 true] = Some [ex_hv 5 false; ex_hv 6 true] /\
+  clean_host [ex_hv 5 true; ex_hv 6 true] = Some [ex_hv 5 true; ex_hv 6 true].
+Proof.
+  split.
+  - intros sub. unfold stream_ok. cbn. split; [intros; lia|]. split; [lia|]. split; [reflexivity|].
+    intros n. unfold tag_state. left. reflexivity.
+  - split; [cbn; repeat split; auto|]. split; [cbn; repeat split; auto|].
+    split; [reflexivity|]. split; [discriminate|]. repeat split; vm_compute; reflexivity.
+Qed.
